@@ -1004,10 +1004,14 @@ theorem step_AllInv (cfg : Cfg) {srv : Server} (h : srv.AllInv cfg) (e : Event) 
     simp only []
     split
     · exact h
-    · split
-      · exact h
-      · have := Server.disconnect_AllInv cfg h c
-        rcases hd : srv.disconnect cfg c with ⟨a, b⟩
+    · rename_i k _
+      have hb : (srv.beforeDispatch k r).1.AllInv cfg := by
+        unfold Server.beforeDispatch
+        split <;> exact h
+      split
+      · exact hb
+      · have := Server.disconnect_AllInv cfg hb c
+        rcases hd : (srv.beforeDispatch k r).1.disconnect cfg c with ⟨a, b⟩
         rw [hd] at this; exact this
   | handle c pick hint =>
     simp only []
